@@ -437,7 +437,8 @@ def opClock (w : World) (h : Nat) : World × String :=
 /-- one host at the end of a step: its timer advances by exactly one tick whether or not it runs;
     a running host's runtime clock has advanced by `A`. -/
 def hostStepEnd (tick A : Nat) (hs : Host) : Host :=
-  { hs with elapsed := hs.elapsed + tick, winStart := if hs.running then hs.winStart + A else hs.winStart }
+  { hs with elapsed := hs.elapsed + tick, winStart := if hs.running then hs.winStart + A else hs.winStart,
+            running := hs.running && !hs.exited, exited := false }
 
 /-- End of `Sim::step`: every host's timer and the sim clock advance by one tick; the runtimes of
     running hosts have advanced to the next grid instant. -/
@@ -452,7 +453,7 @@ def crash (w : World) (h : Nat) : World :=
 def bounce (w : World) (h : Nat) : World :=
   let w := w.dropAll h
   -- a fresh runtime: its clock starts again
-  w.setHost h (fun hs => { hs with running := true, winStart := 0, hnow := 0, wake := none, t0 := 0 })
+  w.setHost h (fun hs => { hs with running := true, exited := false, winStart := 0, hnow := 0, wake := none, t0 := 0 })
 
 end World
 end TV
